@@ -25,6 +25,8 @@ var insecureOriginAtoms = []string{
 	"http://example.com", "http://*.example.com", "http://example.com:8080", "http://example.com:*", "http://*.example.com:8080",
 	"http://192.168.1.1", "http://192.168.1.1:8080", "http://[2001:db8::1]", "http://[2001:db8::1]:8080", "connector://example.com",
 	"http://foo.example.org.", "ws://example.com",
+	// hosts that merely LOOK like localhost or a loopback address
+	"http://localhost.example.com", "http://*.localhost.example.com", "ws://localhost.attacker.example:*", "http://mylocalhost:8080", "http://localhost-x.example", "http://127.0.0.1.example.com", "http://128.0.0.1",
 }
 
 // public suffixes of 1 to 6 labels, from the ICANN and the private section of the list, with and without trailing dot and port
